@@ -1,0 +1,32 @@
+// Copyright 2026 The Mellium Contributors.
+// Use of this source code is governed by the BSD 2-clause
+// license that can be found in the LICENSE file.
+
+//go:build verif
+
+// Package verifhook contains scheduling hooks used by external verification
+// tooling.
+// With the "verif" build tag Yield calls the function installed with Set.
+package verifhook
+
+import (
+	"sync/atomic"
+)
+
+var hook atomic.Value // of func(string)
+
+// Set installs f as the function called by Yield (nil removes it).
+func Set(f func(point string)) {
+	if f == nil {
+		f = func(string) {}
+	}
+	hook.Store(f)
+}
+
+// Yield marks a point at which verification tooling may park the calling
+// goroutine.
+func Yield(point string) {
+	if f, ok := hook.Load().(func(string)); ok {
+		f(point)
+	}
+}
